@@ -99,3 +99,20 @@ Theorem C05_file_checker_accepts_engine_files : forall st pad rd P, EngineSpillD
   Tree.bucket_wf (N.to_nat (Engine.d_np st)) rd P (Engine.d_np st) (Engine.d_root st) = Codec.Ok true.
 Proof. exact EngineReadFull.FileChecker.state_bucket_wf. Qed.
 Print Assumptions C05_file_checker_accepts_engine_files.
+
+(* ==== the loop closed: the COMPLETE file image of any state a history reaches (header page with checksum, free-list page run
+   holding the recorded ids, every tree page encoded, any padding bytes, an older or invalid header in the other slot) passes the
+   executable file checker inv_check -- the very function the checks run on every file the real library commits -- and the model
+   of the library's own DB::check. Hypotheses besides the history's side conditions: `tree_fits` / `phys_ok` (each node fits its
+   page run, the free-list page run is large enough for its ids, 64-bit field bounds: decidable, and what inv_check's element
+   bounds verify per file) and `other_ok` on the other header slot. ==== *)
+From Jamm Require CheckM EngineFileImage.
+Theorem C05_file_checker_accepts_every_engine_file : forall (P0 : N) (txs : list (list Engine.op * list Bytes.bytes)) (st' : Engine.db)
+    (pad : N -> Byte.byte) (P : N) (other : Bytes.bytes),
+  (0 < P0)%N -> EngineAllocInv.txs_ok' (Engine.init_db P0) txs ->
+  EngineRefines.run_txs (Engine.init_db P0) txs = Engine.Ok st' ->
+  EngineFileImage.tree_fits P st' -> EngineFileImage.phys_ok P st' -> EngineFileImage.other_ok P st' other ->
+  Tree.inv_check (Codec.reader_of (EngineFileImage.file_image pad P st' other)) P = Codec.Ok tt /\
+  CheckM.check_m (Codec.reader_of (EngineFileImage.file_image pad P st' other)) P = Codec.Ok tt.
+Proof. exact EngineFileImage.history_inv_check. Qed.
+Print Assumptions C05_file_checker_accepts_every_engine_file.
